@@ -6,7 +6,8 @@ minor arc (generic arcs incl. those wrapping through lon = 0, meridian arcs, arc
 (data flow) the real extreme_gca_latitude with products/trig uninterpreted: which endpoint values reach the result, endpoint
 vs interior candidate selection; (nlsat) the stationarity identity of the interior candidate in polynomial arithmetic (the
 value-level 1-2 parameter formulations did not finish and were dropped).
-Outside (stated): whether float64 rounding keeps the plane test within MACHINE_EPSILON; gca_gca_intersection."""
+(data flow) gca_gca_intersection with point_within_gca as an abstract predicate.
+Outside (stated): whether float64 rounding keeps the plane test within MACHINE_EPSILON; collinear arcs."""
 import math
 from fractions import Fraction as Fr
 import z3
@@ -278,6 +279,105 @@ def make_stationary(oid):
                       timeout_s=900, query_timeout_s=300, tactic="qfnra-nlsat")
 
 
+def make_intersect(oid):
+    """gca_gca_intersection with point_within_gca as an abstract predicate W(point, arc) (decided by C14.pwg.*): the returned rows are
+    exactly the candidates +-(n1 x n2)/|n1 x n2| that W accepts for BOTH arcs; n1, n2 the arcs' plane normals"""
+    PWG = z3.Function("pwg", *([z3.RealSort()] * 9), z3.BoolSort())
+
+    def setup(ctx):
+        P = {k: [z3.Real(f"{k}_{c}") for c in "xyz"] for k in ("w0", "w1", "v0", "v1")}
+        for k, v in P.items():
+            for x in v:
+                ctx.solver.add(x >= -1, x <= 1)
+            ctx.eng.declare(k, v)
+        return P
+
+    def run(ctx, P):
+        sc.NL_UF[0] = True
+        old_sqrt, symnp.SQRT_MODE[0] = symnp.SQRT_MODE[0], "uf"
+        w = world()
+        gi = w.G["uxarray.grid.intersections"]
+        calls = []
+
+        def pwg_stub(pt, gca_cart, is_directed=False):
+            pt_l = [sc.z(x) for x in (pt.flat_list() if hasattr(pt, "flat_list") else list(pt))]
+            arc = [sc.z(x) for e in gca_cart for x in (e.flat_list() if hasattr(e, "flat_list") else list(e))]
+            t = PWG(*[z3.ToReal(x) if z3.is_int(x) else x for x in pt_l + arc])
+            calls.append((pt_l, arc, t))
+            return mk(t)
+        saved = gi["point_within_gca"]
+        gi["point_within_gca"] = pwg_stub
+        try:
+            V = lambda k: symnp.SArr.new([mk(x) for x in P[k]], (3,), None, symnp.float64)      # noqa: E731
+            w0, w1, v0, v1 = V("w0"), V("w1"), V("v0"), V("v1")
+            # the kernel's own intermediate terms, rebuilt with the same operations
+            n1, n2 = symnp.cross(w0, w1), symnp.cross(v0, v1)
+            cn = symnp.cross(n1, n2)
+            # exact unit-vector inputs: a cross product is orthogonal to its factors (the accuracy warnings do not fire) ...
+            for a, b in ((n1, w0), (n1, w1), (n2, v0), (n2, v1), (cn, n2), (cn, n1)):
+                ctx.assume(sc.z(symnp.dot(a, b)) == 0)
+            # ... and the arcs lie on different great circles
+            c = [sc.z(x) for x in cn.flat_list()]
+            ctx.assume(z3.Or(*[z3.Or(x > sc.lift(1e-6), x < -sc.lift(1e-6)) for x in c]))
+            nrm = symnp.linalg.norm(cn)
+            x1 = [sc.z(x) for x in (cn / nrm).flat_list()]
+            x2 = [-x for x in x1]
+            A1, A2 = [sc.z(x) for k in ("w0", "w1") for x in P[k]], [sc.z(x) for k in ("v0", "v1") for x in P[k]]
+            gca1 = symnp.SArr.new([mk(x) for k in ("w0", "w1") for x in P[k]], (2, 3), None, symnp.float64)
+            gca2 = symnp.SArr.new([mk(x) for k in ("v0", "v1") for x in P[k]], (2, 3), None, symnp.float64)
+            res = gi["gca_gca_intersection"](gca1, gca2)
+            rows = res.raw() if hasattr(res, "raw") else res
+            nrows = rows.shape_cap[0] if rows.ndim == 2 else 0
+            got = [[sc.z(rows[i, k]) for k in range(3)] for i in range(nrows)]
+            same = lambda a, b: z3.And(*[z3.simplify(x) == z3.simplify(y) for x, y in zip(a, b)])      # noqa: E731
+            ok1 = z3.And(PWG(*x1, *A1), PWG(*x1, *A2))
+            ok2 = z3.And(PWG(*x2, *A1), PWG(*x2, *A2))
+            exp_n = z3.If(ok1, 1, 0) + z3.If(ok2, 1, 0)
+            ctx.prove("as many points are returned as candidates lie on both arcs", exp_n == nrows)
+            if nrows == 1:
+                ctx.prove("the returned point is the candidate lying on both arcs", z3.Or(z3.And(ok1, same(got[0], x1)), z3.And(ok2, z3.Not(ok1), same(got[0], x2))))
+            elif nrows == 2:
+                ctx.prove("both candidates returned", z3.And(same(got[0], x1), same(got[1], x2)))
+            ctx.prove("every membership test asks about a candidate +-(n1 x n2)/|n1 x n2| and one of the two input arcs",
+                      z3.And(*[z3.And(z3.Or(same(pt, x1), same(pt, x2)), z3.Or(same(arc, A1), same(arc, A2))) for pt, arc, _ in calls]) if calls else False)
+        finally:
+            gi["point_within_gca"] = saved
+            sc.NL_UF[0] = False
+            symnp.SQRT_MODE[0] = old_sqrt
+
+    def replay(v):
+        """the abstract model fixes only the truth values of the membership tests; the candidate is judged on real arcs with a known answer"""
+        from uxarray.grid.intersections import gca_gca_intersection
+        ll = lambda lon, lat: _ll_to_xyz(math.radians(lon), math.radians(lat))      # noqa: E731
+        cases = [(((10, 0), (50, 0)), ((30, -20), (30, 25)), [ll(30, 0)]),                 # crossing
+                 (((10, 0), (50, 0)), ((30, 5), (30, 25)), []),                            # great circles cross outside arc 2
+                 (((10, 0), (20, 0)), ((30, -20), (30, 25)), []),                          # ... outside arc 1
+                 (((10, 0), (20, 0)), ((30, 5), (30, 25)), []),                            # ... outside both
+                 (((170, 10), (-170, 10)), ((180, -5), (180, 40)), None),                  # across the antimeridian: one point, on both arcs
+                 (((-150, 0), (-110, 0)), ((-130, -20), (-130, 25)), [ll(-130, 0)]),       # the antipode of the first candidate is the answer
+                 (((0, 60), (90, 60)), ((45, 50), (45, 89)), None)]
+        for a1, a2, want in cases:
+            for swap_arcs in (False, True):
+                for flip in (False, True):
+                    g1 = np.array([ll(*a1[0]), ll(*a1[1])]); g2 = np.array([ll(*a2[0]), ll(*a2[1])])
+                    if flip:
+                        g1 = g1[::-1].copy()
+                    if swap_arcs:
+                        g1, g2 = g2, g1
+                    got = np.asarray(gca_gca_intersection(g1, g2)).reshape(-1, 3)
+                    on_both = all(_exact_on_arc(g1[0], g1[1], p, 1e-7) and _exact_on_arc(g2[0], g2[1], p, 1e-7) for p in got)
+                    n_want = 1 if want is None else len(want)
+                    if len(got) != n_want or not on_both or (want and not np.allclose(got[0], want[0], atol=1e-9)):
+                        return f"gca_gca_intersection(arc {a1}, arc {a2}; arcs swapped={swap_arcs}, endpoints swapped={flip}) returned {got.tolist()}, exact geometry gives {n_want} common point(s)"
+        return None
+
+    return Obligation(oid, "gca_gca_intersection returns exactly the candidates lying on both arcs", setup, run, replay, exact=False,
+                      functions=["intersections.gca_gca_intersection", "utils.computing.cross/dot/norm/allclose"],
+                      bounds="all endpoint vectors in [-1,1]^3 treated as exact unit vectors on two different great circles (|n1 x n2| component > 1e-6); fma_disabled=True",
+                      stubs=["arcs.point_within_gca: abstract predicate W(point, arc) (its exactness is C14.pwg.*)", "products/quotients/sqrt uninterpreted (values compared as terms)"],
+                      assumptions=["cross products are orthogonal to their factors (exact arithmetic): the accuracy warnings do not fire"], timeout_s=900)
+
+
 class _Stop(Exception):
     pass
 
@@ -285,5 +385,5 @@ class _Stop(Exception):
 def obligations(tier):
     obs = [make_pwg("C14.pwg.generic", "generic"), make_pwg("C14.pwg.generic.directed", "generic", True), make_pwg("C14.pwg.meridian", "meridian"),
            make_pwg("C14.pwg.pole", "pole")]
-    obs += [make_extreme("C14.extreme.max", "max"), make_extreme("C14.extreme.min", "min"), make_stationary("C14.extreme.stationary")]
+    obs += [make_extreme("C14.extreme.max", "max"), make_extreme("C14.extreme.min", "min"), make_stationary("C14.extreme.stationary"), make_intersect("C14.intersect")]
     return [o for o in obs if tier in o.tiers]
